@@ -175,9 +175,12 @@ def r3_pause_resume(prog, rep: Report, pf: PoolFacts):
             if d and len(d) == 2 and d[0] == run_.self_name:
                 waited.add(d[1])
     found = 0
-    for f in pf.consumers:
-        loop = pf.consumer_loop[f.qual]
-        for n in ast.walk(loop):
+    for f0 in pf.consumers:
+        # the consumer with the pool's private helpers inlined (sa/inline.py): the flow control may live in a helper
+        f = prog.method_view(f0.cls, f0.name) if f0.cls is not None else f0
+        from ..flow import Flow as _Flow
+        vflow = _Flow(f.node)
+        for n in ast.walk(f.node):
             if not (isinstance(n, ast.Call) and isinstance(n.func, ast.Attribute) and n.func.attr == "clear"):
                 continue
             d = dotted(n.func.value)
@@ -210,7 +213,7 @@ def r3_pause_resume(prog, rep: Report, pf: PoolFacts):
                         conds.append((par.test, ch in par.body))
                     ch, par = par, getattr(par, "_parent", None)
                 bounds = {dotted(x) for x in ast.walk(iff.test) if isinstance(x, ast.Attribute) and dotted(x) and dotted(x)[0] == f.self_name}
-                bad = _drained_counterexample(conds, d, bounds)
+                bad = _drained_counterexample(conds, d, bounds, flow=vflow)
                 if bad:
                     guard_ok = False
                     guard_why = bad
@@ -234,7 +237,7 @@ def r3_pause_resume(prog, rep: Report, pf: PoolFacts):
                             stored = _eval_ctor_bound(v_, {p_: b_ for p_ in params})
                             if stored is None:
                                 continue
-                            probe = _drained_counterexample([(iff.test, False)], d, bounds, fixed_bound=stored)
+                            probe = _drained_counterexample([(iff.test, False)], d, bounds, fixed_bound=stored, flow=vflow)
                             if probe:
                                 bad_b = (b_, stored)
                                 break
@@ -248,6 +251,8 @@ def r3_pause_resume(prog, rep: Report, pf: PoolFacts):
             t = iff.test
 
             def term(x):
+                if isinstance(x, ast.Name):
+                    x = vflow.expand(x)          # buffered = len(buffer)
                 if isinstance(x, ast.Call) and src(x.func) == "len":
                     return env["len"]
                 dd = dotted(x)
@@ -310,7 +315,7 @@ def _eval_ctor_bound(e, env):
     return None
 
 
-def _drained_counterexample(conds, ev_path, bounds, fixed_bound=None) -> str:
+def _drained_counterexample(conds, ev_path, bounds, fixed_bound=None, flow=None) -> str:
     """conds: [(test, wanted truth value)] guarding the resume.  Returns '' when all hold at len(buffer)=0 / event clear for every
     sampled bound and every valuation of the free atoms, else a description of the falsifying point."""
     from itertools import product
@@ -320,6 +325,10 @@ def _drained_counterexample(conds, ev_path, bounds, fixed_bound=None) -> str:
         pass
 
     def val(x, b, free):
+        if isinstance(x, ast.Name) and flow is not None:
+            ex_ = flow.expand(x)
+            if ex_ is not x:
+                return val(ex_, b, free)
         if isinstance(x, ast.Constant) and isinstance(x.value, (int, float, bool)):
             return x.value
         if isinstance(x, ast.Call) and src(x.func) == "len" and len(x.args) == 1:
